@@ -17,6 +17,7 @@ import (
 	"fmt"
 	"os"
 	"strings"
+	"time"
 	"unicode"
 	"unicode/utf8"
 
@@ -230,8 +231,8 @@ func c14EchoBundles(e *env, strs []string) []*c14Bundle {
 	}
 	for si, s := range strs {
 		for ci, ctx := range c14Contexts {
-			if len(s) > 4096 && ci%3 != 0 {
-				continue // long strings: a third of the contexts
+			if len(s) > 4096 && (ci+si)%6 != 0 {
+				continue // long strings: a sixth of the contexts each, rotating, so that every context sees several long strings
 			}
 			if cur == nil {
 				cur = &c14Bundle{Stream: "echo", Globals: map[string]interface{}{}}
@@ -361,19 +362,58 @@ func c14Replay(e *env) {
 
 func c14Run(e *env, bundles []*c14Bundle) {
 	var units []*c14Unit
+	tp := time.Now()
+	const batch = 60
+	type nodeJob struct {
+		units []*c14Unit
+		tag   string
+		res   []jsNodeUnitRes
+		err   error
+		done  chan struct{}
+	}
+	var jobs []*nodeJob
+	sem := make(chan struct{}, 2)
+	launch := func(us []*c14Unit) {
+		j := &nodeJob{units: us, tag: fmt.Sprintf("b%d", len(jobs)), done: make(chan struct{})}
+		jobs = append(jobs, j)
+		var nu []jsNodeUnit
+		for _, u := range us {
+			nu = append(nu, u.node)
+		}
+		go func() {
+			sem <- struct{}{}
+			j.res, j.err = jsRunNode(nu, j.tag, "C14")
+			<-sem
+			close(j.done)
+		}()
+	}
+	sent := 0
 	for _, b := range bundles {
 		units = append(units, c14Prepare(e, b)...)
-	}
-	// node, in batches
-	const batch = 60
-	for i := 0; i < len(units); i += batch {
-		j := i + batch
-		if j > len(units) {
-			j = len(units)
+		for len(units)-sent >= batch {
+			launch(units[sent : sent+batch])
+			sent += batch
 		}
-		c14Node(e, units[i:j], fmt.Sprintf("b%d", i/batch))
 	}
+	if sent < len(units) {
+		launch(units[sent:])
+	}
+	c14T["prepare-total"] = time.Since(tp)
+	tn := time.Now()
+	for _, j := range jobs {
+		<-j.done
+		c14NodeEval(e, j.units, j.tag, j.res, j.err)
+	}
+
+	// node, in batches; the batches run while the next bundles are prepared (two node processes at most), the
+	// results are evaluated in order afterwards
+	c14T["node"] = time.Since(tn)
+	tg := time.Now()
 	c14WfNegatives(e)
+	c14T["negatives"] = time.Since(tg)
+	if os.Getenv("C14_TIMING") != "" {
+		fmt.Fprintln(os.Stderr, "C14 timing:", c14T)
+	}
 	e.res.Note("node %s compiled and ran the generated files with soyjs/lib/soyutils.js; no JavaScript grammar is formalised in Coq: syntactic validity rests on this run", "20")
 	_ = os.Stderr
 	_ = utf8.RuneError
